@@ -12,6 +12,7 @@ import (
 	jbytes "github.com/jsightapi/jsight-schema-core/bytes"
 	"github.com/jsightapi/jsight-schema-core/errs"
 	jdoc "github.com/jsightapi/jsight-schema-core/formats/json"
+	jplain "github.com/jsightapi/jsight-schema-core/formats/plaintext"
 	jnum "github.com/jsightapi/jsight-schema-core/json"
 	"github.com/jsightapi/jsight-schema-core/notations/jschema"
 	jregex "github.com/jsightapi/jsight-schema-core/notations/regex"
@@ -136,6 +137,27 @@ func bundleJSONDoc(in []byte, sink callSink) {
 	}
 }
 
+// bundlePlaintext: the plain-text document (a Document whose whole content is one literal).
+func bundlePlaintext(in []byte, sink callSink) {
+	call(sink, "Len", in, nil, func() error { _, e := jplain.New("doc", in).Len(); return e })
+	call(sink, "Check", in, nil, func() error { return jplain.New("doc", in).Check() })
+	call(sink, "NextLexeme", in, nil, func() error {
+		d := jplain.New("doc", in)
+		for i := 0; i < 3; i++ { // (this document never reports the end of its stream)
+			lex, err := d.NextLexeme()
+			if err != nil {
+				if errors.Is(err, io.EOF) {
+					return nil
+				}
+				return err
+			}
+			_ = lex.Type().String()
+			_ = d.Content().Len()
+		}
+		return nil
+	})
+}
+
 func bundleNumber(in []byte, sink callSink) {
 	call(sink, "NewNumber", in, nil, func() error {
 		n, e := jnum.NewNumber(jbytes.NewBytes(in))
@@ -155,6 +177,9 @@ func buildProject(p *project) (*jschema.JSchema, error) {
 	rootName := "root"
 	if p.Self != "" {
 		rootName = p.Self
+	}
+	if p.TypeFile == unnamedFiles {
+		rootName = ""
 	}
 	root := jschema.New(rootName, p.Root)
 	ruleOrder := p.RuleOrder
@@ -181,6 +206,9 @@ func buildProject(p *project) (*jschema.JSchema, error) {
 		fn := n
 		if p.TypeFile != "" {
 			fn = p.TypeFile
+		}
+		if p.TypeFile == unnamedFiles {
+			fn = ""
 		}
 		t := jschema.New(fn, p.Types[n])
 		if err := addRules(t); err != nil {
@@ -240,7 +268,18 @@ func sortStrings(a []string) {
 }
 
 // texts maps file names (types and rules are filed under their own names) to contents.
+// unnamedFiles as TypeFile: the root and every type are created with an empty file name
+// (texts that never were files); a diagnostic then names "" and may refer to any of them.
+const unnamedFiles = "<unnamed>"
+
 func (p *project) texts() map[string][]byte {
+	if p.TypeFile == unnamedFiles {
+		t := map[string][]byte{"": []byte(p.Root)}
+		for i, k := range sortedKeys(p.Types) {
+			t[fmt.Sprintf("#%d", i+2)] = []byte(p.Types[k])
+		}
+		return t
+	}
 	t := map[string][]byte{"root": []byte(p.Root)}
 	if p.Self != "" {
 		t[p.Self] = []byte(p.Root)
@@ -438,6 +477,16 @@ func c16Sink(w *core.W, entry string, in []byte, wit []byte) callSink {
 			return
 		}
 		w.Class(fmt.Sprintf("code:%d", code))
+		if code == int(errs.ErrGeneric) {
+			// code 0 is what a foreign error (a library's error, a string panic) is
+			// wrapped in: it renders as "ERROR: <text>" without any code
+			f := strings.Fields(msg)
+			if len(f) > 4 {
+				f = f[:4]
+			}
+			fail("has-code", "generic code 0 (rendered without a code): "+trunc(msg, 120), map[string]string{"type": "generic", "what": strings.Join(f, " ")})
+			return
+		}
 		if code == int(errs.ErrRuntimeFailure) {
 			fail("not-internal-failure", "internal-failure code 1 (Runtime Failure): "+trunc(msg, 100), nil)
 			return
